@@ -13,7 +13,8 @@ Record case := {
   o_raw : list (bool * N * Z * N);         (* uftrace dump: exit?, function, record depth, time *)
   o_chrome : list (bool * N * N);          (* uftrace dump --chrome: exit?, function, time *)
   o_report : list N;                       (* uftrace report: Calls column per function number, then "<0>" *)
-  o_graph : list (N * N * N)               (* uftrace graph: pre-order (depth, function, calls) *)
+  o_graph : list (N * N * N);              (* uftrace graph: pre-order (depth, function, calls) *)
+  o_flame : list (N * N * N)               (* uftrace dump --flame-graph: the same tree, one line per call path *)
 }.
 
 Definition recs (k : case) : list rec := flats 0 (k_forest k).
@@ -34,6 +35,9 @@ Definition agree_report (k : case) : bool :=
   list_eqb N.eqb (report_of (k_nfun k) (run_std (k_cfg k) (recs k)) (remaining (k_cfg k) (recs k))) (o_report k).
 Definition agree_graph (k : case) : bool :=
   list_eqb tri_eqb (graph_of (run_std (k_cfg k) (recs k))) (o_graph k).
+
+Definition agree_flame (k : case) : bool :=
+  list_eqb tri_eqb (graph_of (run_chrome (k_cfg k) (recs k))) (o_flame k).
 
 (* ---------------------------------------------------------------- the property, on implementation outputs *)
 Definition nd_n (a : bool * N * Z) : bool * N := let '(x, f, _) := a in (x, f).
@@ -59,6 +63,7 @@ Definition ok_agree (k : case) : bool :=
   && (negb pf || list_eqb n_eqb (if no_range c then rp else rp ++ map (fun f => (true, f)) (open_stack rp [])) shown)
   && (negb (no_range c) || list_eqb N.eqb (report_of (k_nfun k) (map n_ev shown) []) (o_report k))
   && list_eqb tri_eqb (graph_of (map n_ev shown)) (o_graph k)
+  && list_eqb tri_eqb (graph_of (map n_ev shown)) (o_flame k)
   && (negb (raw_class k && no_range c) || list_eqb nt_eqb (map rt_nt (o_raw k)) (o_chrome k)).
 
 (* "selects the calls defined by the documented semantics" for the option class of the theorems *)
